@@ -315,7 +315,8 @@ MODEL_KINDS = {'page': 'page', 'redirect': 'redirect', 'notfound': 'notfound', '
 
 def strict_eligible(scn):
     o = scn['opts']
-    if scn['start'] != [1] or o['spanhosts'] or not o['strong'] or not o['recursive'] or o['pagereq'] or o['auth']:
+    if scn['start'] != [1] or o['spanhosts'] or not o['strong'] or not o['recursive'] or o['pagereq'] or o['auth'] \
+            or o.get('sitemaps'):
         return False
     hs = cs.hosts_of(scn)
     if len(hs) > 2 or hs[0] != 'a.test' or cs.origins_of(scn) != hs or len(scn['urls']) > 8:
